@@ -83,6 +83,19 @@ T = {
  "C15F": ("DIR", ["./mutants/F/demo/"]),
  "C16E": ([("demo_test.go","common/bytes/zz_demo_test.go")], ["./common/bytes/","-run","TestDemoA"]),
  "C16F": ([("demo_test.go","proc/mvp4/zz_demo_test.go")], ["./proc/mvp4/","-run","TestDemoB"]),
+ # round 4
+ "C01H": ([("demo_test.go","proc/mvp8-0/zz_demo_test.go")], ["./proc/mvp8-0/","-run","TestDemoA"]),
+ "C01I": ([("demo_test.go","proc/mvp7-0/zz_demo_test.go")], ["./proc/mvp7-0/","-run","TestDemoB"]),
+ "C03H": ([("demo_test.go","proc/zz_demo_test.go")], ["./proc/","-run","TestDemoA"]),
+ "C03I": ([("demo_test.go","proc/zz_demo_test.go")], ["./proc/","-run","TestDemoB"]),
+ "C05H": ([("demo_test.go","proc/zz_demo_test.go")], ["./proc/","-run","TestDemoA$"]),
+ "C05I": ([("demo_test.go","proc/zz_demo_test.go")], ["./proc/","-run","TestDemoB$"]),
+ "C08H": ([("demo_test.go","proc/mvp8-0/zz_demo_test.go")], ["./proc/mvp8-0/","-run","TestDemoRepeatable"]),
+ "C08I": ([("demo_test.go","zz_demo_b/demo_test.go")], ["./zz_demo_b/","-run","TestDemoReuseAfterFault"]),
+ "C09H": ([("demo_test.go","proc/zz_demo_test.go")], ["./proc/","-run","TestDemoC09A"]),
+ "C09I": ([("demo_test.go","proc/zz_demo_test.go")], ["./proc/","-run","TestDemoC09B"]),
+ "C12H": ([("demo_test.go","proc/zz_demo_test.go")], ["./proc/","-run","TestDemoA"]),
+ "C12I": ([("demo_test.go","proc/zz_demo_test.go")], ["./proc/","-run","TestDemoB"]),
 }
 def sh(args, cwd, timeout=3600):
     p = subprocess.run(args, cwd=cwd, env=ENV, capture_output=True, text=True, timeout=timeout)
